@@ -269,6 +269,19 @@ fn claim(depth: u32) -> BoxedStrategy<ClaimSpec> {
     1 => gen::short_text().prop_map(|t| ClaimSpec::Iss(t.render())),
     1 => (0u8..7).prop_map(ClaimSpec::DefaultOf),
     1 => (key(), 0u64..1_000_000).prop_map(|(k, n)| ClaimSpec::SharedCounter(k, n)),
+    // a caller-defined claim type whose serialised form is an object with several members (one of them perhaps named like
+    // the claim itself), a member under another name, no member, or no object at all: the whole serialised value is the claim
+    2 => (key(), gen::json_value(2), gen::json_leaf(), 0u8..6).prop_map(|(k, v, w, shape)| {
+      let value = match shape {
+        0 => serde_json::json!({ k.clone(): v, "level": w, "scopes": ["read", "write"] }),
+        1 => serde_json::json!({ "member-under-another-name": v }),
+        2 => serde_json::json!({}),
+        3 => serde_json::json!({ k.clone(): v }),
+        4 => v,
+        _ => serde_json::json!({ "a": v, "b": w }),
+      };
+      ClaimSpec::Shaped(k, value)
+    }),
     1 => gen::short_text().prop_map(|t| ClaimSpec::Sub(t.render())),
     1 => gen::short_text().prop_map(|t| ClaimSpec::Aud(t.render())),
     1 => gen::short_text().prop_map(|t| ClaimSpec::Jti(t.render())),
